@@ -6,7 +6,7 @@
 use super::verif_kani::*;
 use super::*;
 
-// @harness props=C11,C12 props_thorough=C03 tiers=quick:B=8,M=0|B=8,M=1|B=8,M=2;thorough:B=16,M=0|B=16,M=1|B=16,M=2 unwind=B+4 cap=900 mem=2 covers=1
+// @harness props=C11,C12,C02,C14 props_thorough=C03 tiers=quick:B=8,M=0|B=8,M=1|B=8,M=2;thorough:B=16,M=0|B=16,M=1|B=16,M=2 unwind=B+4 cap=900 mem=2 covers=1
 // @fn HttpConnection::reset_parser
 // @claim the reset that try_read performs after a parse error leaves exactly the state of a new connection from every parser state: state WaitingForRequestLine, no pending request, read cursor 0, no partial body, counter 0, no descriptor held (each held descriptor closed once); queued requests and responses untouched
 // @bounds parser shape per query M (0 request line with an arbitrary carried prefix, 1 headers with an arbitrary pending request, 2 body with 2 accumulated bytes and an arbitrary counter); 2 descriptors held; window B
